@@ -101,6 +101,16 @@ namespace occa {
     reserved -= hi-lo;
   }
 
+  modeBuffer_t* modeMemoryPool_t::makeOwnedBuffer() {
+    // The pool owns this buffer and deletes it (in resize, setAlignment and
+    // ~modeMemoryPool_t). It must not stay in the device's ring of buffers:
+    // modeDevice_t::freeResources deletes every member of that ring, so the
+    // buffer would be deleted once by the device and once by the pool.
+    modeBuffer_t *newBuffer = makeBuffer();
+    modeDevice->removeMemoryRef(newBuffer);
+    return newBuffer;
+  }
+
   bool modeMemoryPool_t::needsFree() const {
     return memoryPoolRing.needsFree();
   }
@@ -164,7 +174,7 @@ namespace occa {
       */
       if (buffer) delete buffer;
 
-      buffer = makeBuffer();
+      buffer = makeOwnedBuffer();
       buffer->malloc(alignedBytes);
       size = alignedBytes;
 
@@ -179,7 +189,7 @@ namespace occa {
       Make a new allocation and migrate reserved space to new allocation
       packing the space in the process
       */
-      modeBuffer_t* newBuffer = makeBuffer();
+      modeBuffer_t* newBuffer = makeOwnedBuffer();
       newBuffer->malloc(alignedBytes);
 
       modeDevice->bytesAllocated += alignedBytes;
@@ -290,7 +300,7 @@ namespace occa {
       } while (it != reservations.end());
 
       /*Make a new buffer*/
-      modeBuffer_t* newBuffer = makeBuffer();
+      modeBuffer_t* newBuffer = makeOwnedBuffer();
       newBuffer->malloc(newReserved);
 
       modeDevice->bytesAllocated += newReserved;
